@@ -120,7 +120,7 @@ CHECKS["C09"] = ("model_checking",
                  "PktWire.tla states the header layouts from the RFCs and the demultiplexing function; TLC enumerates all 65 536 VLAN tag words, "
                  "all IPv4 flag/offset words, all fragment words, all version/IHL, DSCP/ECN, TCP offset/flag groups, IPv6 chains, IGMP counts; "
                  "every header is executed through the real encoder and decoder and judged bit for bit.",
-                 "Trusted: my transcription of the RFC layouts, TLC, Json, the reflective interpreter / projector. DHCP and LLDP not yet covered.",
+                 "Trusted: my transcription of the RFC layouts, TLC, Json, the reflective interpreter / projector (DHCP and LLDP through a Read/Write adapter).",
                  "4/C09")
 
 CHECKS["C04"] = ("model_checking",
